@@ -17,8 +17,10 @@ import (
 	"github.com/arloliu/go-secs/v2/zverif/vsched"
 
 	"verif/e2"
+	"verif/e2s1"
 	"verif/e3"
 	"verif/peer"
+	"verif/sim"
 	"verif/vfw"
 )
 
@@ -270,6 +272,89 @@ func scenarios() []e3.Scenario {
 				post(e, true)
 			},
 		})
+	}
+	// The peer drops the link, the reconnect loop's backoff runs out (clock tick), and the
+	// application closes while the loop re-dials / re-listens: on both transports and in both
+	// roles Close returns nil and nothing of the endpoint survives it — in particular no
+	// listener bound by a generation that Close had already sealed.
+	for _, tr := range []string{"hsmsss", "secs1"} {
+		for _, active := range []bool{false, true} {
+			tr, active := tr, active
+			role := map[bool]string{true: "active", false: "passive"}[active]
+			var closeErr error
+			var n *e2s1.Node
+			out = append(out, e3.Scenario{
+				Name: tr + "-" + role + "-drop-backoff-over-vs-close", Horizon: 60 * time.Second,
+				Setup: func(e *e3.Env) {
+					closeErr, n = nil, nil
+					var pc *sim.Conn
+					if tr == "hsmsss" {
+						o := opts(active)
+						e.W.NewConn(o)
+						if err := e.W.Establish(o); err != nil {
+							panic(err)
+						}
+						pc = e.W.Peer
+					} else {
+						n = e2s1.New(e.W, e2s1.Opts{Active: active, Equip: true, Device: 1, Retry: 1, T1: 100 * time.Millisecond, T2: 300 * time.Millisecond,
+							Conn: []hsms.ConnOption{hsms.WithT5(time.Second), hsms.WithCloseTimeout(5 * time.Second), hsms.WithReconnectBackoff(100*time.Millisecond, 2)}})
+						if err := n.Open(); err != nil {
+							panic(err)
+						}
+						if active {
+							pc = e.W.Net.TakePeer()
+						} else {
+							pc = e.W.Net.Connect()
+						}
+						if pc == nil {
+							panic("c10s: no SECS-I link")
+						}
+						e.W.Settle()
+					}
+					e.Thread("1peer", func() { _ = pc.Close() })
+					e.Thread("2close", func() {
+						vsched.Tick() // the loop's first backoff (100 ms) runs out before Close begins
+						if n != nil {
+							closeErr = n.C.Close()
+						} else {
+							closeErr = e.W.C.Close()
+						}
+					})
+				},
+				Finish: func(e *e3.Env) {
+					if closeErr != nil {
+						e.Violate("close-error", "Close racing the reconnect loop returned %v", closeErr)
+					}
+					if n == nil {
+						post(e, true)
+						return
+					}
+					w := e.W
+					if err := n.C.Close(); err != nil {
+						e.Violate("final-close-error", "final Close returned %v", err)
+					}
+					w.Settle()
+					dials, listens := w.Net.DialCount(), len(w.Net.Listeners)
+					w.Advance(12 * time.Second)
+					if w.Net.DialCount() != dials || len(w.Net.Listeners) != listens {
+						e.Violate("dial-after-close", "a dial or listen happened after the final Close returned")
+					}
+					if l := w.Net.LiveListener(); l != nil {
+						e.Violate("listener-after-close", "a listening socket is still open and accepting after Close returned")
+					}
+					if c, l := w.Net.Unclosed(); c != 0 || l != 0 {
+						e.Violate("socket-leak", "%d sockets and %d listeners handed to the library were never closed", c, l)
+					}
+					if gs := e2.LibGoroutines(); len(gs) > 0 {
+						s := strings.Join(gs, "\n")
+						if len(s) > 900 {
+							s = s[:900]
+						}
+						e.Violate("goroutine-leak", "%d library goroutines alive after the final Close: %s", len(gs), s)
+					}
+				},
+			})
+		}
 	}
 	return out
 }
